@@ -225,7 +225,8 @@ def run(ck):
                     ck.report("plan:root-schema-changed", "optimization changed the number of output columns of `%s` from %d to %d" % (c["sql"], nb, no), replay=replay)
                 continue
             if vo.startswith("runtime-todo"):
-                ck.report("plan:nl-outer-join-left-in-optimized-plan", "the optimized plan of `%s` keeps a nested-loop right/full outer join (executor: todo!())" % c["sql"], replay=replay)
+                # (no executor arm is `todo!()` since fix 7d07810; kept for a model that says so again)
+                ck.report("plan:runtime-todo:" + vlib.slug(vo)[:40], "the optimized plan of `%s` contains an operator whose executor is todo!() (%s)" % (c["sql"], vo), replay=replay)
                 continue
             sub = [k for k in ("apply", "in", "exists", "max1row") if ("(%s " % k) in (on.get("optimized") or "")]
             if c["sql"] in must_work and not sub:
